@@ -124,7 +124,7 @@ func checkC15(w *World, r *Report) {
 	r.Rule("C15.R2", "lookup helpers: a new entry gets index len(map) read before the insertion, and is appended to the table only on the miss edge; a hit returns the stored index and the unchanged table", 2)
 	r.Rule("C15.R3", "a message without sender must not be encoded as a valid index of the Senders table", 1)
 	r.Rule("C15.R4", "the PID tables are keyed by (address, id), not by a digest", 1)
-	r.Rule("C15.R5", "the Messages slice has no holes: it is built by append on the success path only", 1)
+	r.Rule("C15.R5", "a skipped message leaves no hole, no table entry and does not abort the batch", 3)
 	r.Rule("C15.R6", "no unchecked type assertion on the user payload (serializers) or on the inbox envelope (writer)", 3)
 	r.Rule("C15.R7", "reader: every message is delivered with Targets[TargetIndex], the payload deserialised as TypeNames[TypeNameIndex] and Senders[SenderIndex], synchronously and in order", 3)
 	a := w.remoteAnchors()
@@ -325,6 +325,55 @@ func checkC15(w *World, r *Report) {
 				}
 			}
 		}
+		// a rejected message must leave no trace in the lookup tables, and must not take the batch with it
+		okTables := true
+		serOK := func(n int) bool {
+			for _, f := range g.FactsAt(n) {
+				p := w.pathOf(f.Cond)
+				if strings.HasPrefix(p, "(call:Serializer.Serialize(") && (strings.HasSuffix(p, "#1!=K:nil)") && !f.Val || strings.HasSuffix(p, "#1==K:nil)") && f.Val) {
+					return true
+				}
+			}
+			return false
+		}
+		for _, in := range g.ins {
+			if c, isC := in.(*ssa.Call); isC && c.Call.StaticCallee() != nil {
+				for _, L := range lookups {
+					if c.Call.StaticCallee() == L && !serOK(g.idx[in]) {
+						okTables = false
+					}
+				}
+			}
+		}
+		r.Check(okTables, "C15.R5", fname(W)+":tables-only-for-shipped-messages", "a lookup table entry is created only for a message whose payload serialised", site,
+			"a message that is dropped still leaves its sender/target/type in the tables: with only sender-less survivors the peer attributes them to the dropped message's sender")
+		okCont := true
+		var sendNode []bool = make([]bool, len(g.ins))
+		for i, in := range g.ins {
+			if c := callOf(in); c != nil && c.IsInvoke() && c.Method.Name() == "Send" && len(c.Args) == 1 && c.Args[0] == ssa.Value(envs[0]) {
+				sendNode[i] = true
+			}
+		}
+		skip, _ := g.CondEdges(func(v ssa.Value) (bool, bool) {
+			p := w.pathOf(v)
+			if strings.HasPrefix(p, "(call:Serializer.Serialize(") && strings.HasSuffix(p, "#1!=K:nil)") {
+				return true, true
+			}
+			if strings.HasPrefix(p, "assert<*remote.streamDeliver>(") && strings.HasSuffix(p, "#1") {
+				return false, true
+			}
+			return false, false
+		})
+		for _, e := range skip {
+			rr := g.reach([]int{e.to}, sendNode, nil)
+			for _, x := range g.returns {
+				if rr[x] {
+					okCont = false
+				}
+			}
+		}
+		r.Check(okCont && len(skip) > 0, "C15.R5", fname(W)+":skip-keeps-the-batch", "after skipping a message the rest of the batch is still sent", site,
+			"one unserialisable (or foreign) message makes Invoke return: every other message of the batch is silently lost")
 		r.Check(ok, "C15.R5", fname(W)+":Messages-no-holes", "Envelope.Messages is grown by append, only for messages whose payload serialised", site, detail)
 	}
 
@@ -802,6 +851,59 @@ func checkC16(w *World, r *Report) {
 	if n == 0 {
 		r.Unknown("C16.R4", "processers", "custom Processer implementations", "-", "none found")
 	}
+	// comma-ok discipline: the asserted value is only used where ok holds
+	for _, fn := range w.Funcs {
+		if !w.isLib(fn) || fnPkgPath(fn) != modPath+"/remote" || strings.Contains(w.Fset.Position(fn.Pos()).Filename, ".pb.go") {
+			continue
+		}
+		g := w.FG(fn)
+		for _, in := range g.ins {
+			ta, ok := in.(*ssa.TypeAssert)
+			if !ok || !ta.CommaOk || ta.Referrers() == nil {
+				continue
+			}
+			if _, isPtr := ta.AssertedType.Underlying().(*types.Pointer); !isPtr {
+				continue
+			}
+			var val, okv ssa.Value
+			for _, rf := range *ta.Referrers() {
+				if e, isE := rf.(*ssa.Extract); isE {
+					if e.Index == 0 {
+						val = e
+					} else {
+						okv = e
+					}
+				}
+			}
+			if val == nil || val.Referrers() == nil {
+				continue
+			}
+			bad := ""
+			for _, rf := range *val.Referrers() {
+				fa, isFA := rf.(*ssa.FieldAddr)
+				if !isFA || fa.Referrers() == nil {
+					continue
+				}
+				for _, use := range *fa.Referrers() {
+					un, has := g.idx[use]
+					if !has {
+						continue
+					}
+					guarded := false
+					for _, f := range g.FactsAt(un) {
+						if f.Cond == okv && f.Val {
+							guarded = true
+						}
+					}
+					if !guarded {
+						bad = w.pos(use.Pos())
+					}
+				}
+			}
+			r.Check(bad == "", "C16.R4", fname(fn)+":comma-ok["+types.TypeString(ta.AssertedType, shortQ)+"]", "the result of a comma-ok assertion is dereferenced only where ok holds", w.pos(ta.Pos()),
+				"the asserted pointer is dereferenced at "+bad+" on a path where the assertion failed (nil): a foreign message type crashes the node")
+		}
+	}
 }
 
 func recvNodes(w *World, g *FG) []bool {
@@ -1016,6 +1118,68 @@ func checkC17(w *World, r *Report) {
 		r.Check(okRem, "C17.R3", fname(a.wShutdown)+":unregisters", "Shutdown removes the writer's own PID from the registry on every path", hs,
 			"the dead writer stays registered: messages for that address are swallowed instead of dead-lettering and no fresh connection is attempted")
 	}
+	// R6: the writer's batch survives a bad message; a closed stream closes the connection; the reader keeps sender per message
+	r.Rule("C17.R6", "writer: a skipped message does not abort the batch and an EOF on the stream closes the connection (which shuts the writer down); reader: target, payload and sender are per message", 5)
+	{
+		W := a.wInvoke
+		wg := w.FG(W)
+		sendN := make([]bool, len(wg.ins))
+		for i, in := range wg.ins {
+			if c := callOf(in); c != nil && c.IsInvoke() && c.Method.Name() == "Send" && len(c.Args) == 1 {
+				if _, isCall := in.(*ssa.Call); isCall {
+					sendN[i] = true
+				}
+			}
+		}
+		skip, _ := wg.CondEdges(func(v ssa.Value) (bool, bool) {
+			p := w.pathOf(v)
+			if strings.HasPrefix(p, "(call:Serializer.Serialize(") && strings.HasSuffix(p, "#1!=K:nil)") {
+				return true, true
+			}
+			if strings.HasPrefix(p, "assert<*remote.streamDeliver>(") && strings.HasSuffix(p, "#1") {
+				return false, true
+			}
+			return false, false
+		})
+		ok := len(skip) > 0 && anyOf(sendN)
+		for _, e := range skip {
+			rr := wg.reach([]int{e.to}, sendN, nil)
+			for _, x := range wg.returns {
+				if rr[x] {
+					ok = false
+				}
+			}
+		}
+		r.Check(ok, "C17.R6", fname(W)+":skip-keeps-the-batch", "after skipping a message the rest of the batch is still written to the stream", w.fnPos(W),
+			"one rejected message makes Invoke return: the other messages of the batch are neither delivered nor dead-lettered")
+		eof, _ := wg.CondEdges(func(v ssa.Value) (bool, bool) {
+			p := w.pathOf(v)
+			return true, strings.HasPrefix(p, "call:errors.Is(call:DRPCRemote_ReceiveStream.Send(") && strings.HasSuffix(p, ",G:EOF)")
+		})
+		closeN := make([]bool, len(wg.ins))
+		for i, in := range wg.ins {
+			if c := callOf(in); c != nil {
+				if f := c.StaticCallee(); f != nil && (f == a.wShutdown || (f.Name() == "Close" && strings.HasSuffix(w.pathOf(c.Args[0]), ".conn"))) {
+					closeN[i] = true
+				}
+				if c.IsInvoke() && c.Method.Name() == "Close" && (strings.HasSuffix(w.pathOf(c.Value), ".conn") || strings.HasSuffix(w.pathOf(c.Value), ".rawconn")) {
+					closeN[i] = true
+				}
+			}
+		}
+		okE := len(eof) > 0
+		for _, e := range eof {
+			rr := wg.reach([]int{e.to}, closeN, nil)
+			for _, x := range wg.returns {
+				if rr[x] {
+					okE = false
+				}
+			}
+		}
+		r.Check(okE, "C17.R6", fname(W)+":eof-closes-connection", "when the peer has ended the stream (io.EOF) the writer closes its connection, so that the watcher shuts it down", w.fnPos(W),
+			"a writer whose stream was closed by the peer stays registered: every later message for that address is silently lost, no RemoteUnreachableEvent, no re-dial")
+	}
+	checkReaderDelivery(w, r, a, "C17.R6")
 	// R4
 	if term == nil || rrecv == nil {
 		r.Unknown("C17.R4", "router", "router terminate handler", "-", "not found")
